@@ -30,7 +30,7 @@ NewTools == ProjTools \cup {"RhumbSolve", "CartConvert", "IntersectTool", "Plani
 
 \* the fields of an input line
 Fmt(c) ==
-  CASE c.tool = "RhumbSolve" -> IF c.mode = "inv" THEN <<"ll", "ll">> ELSE <<"ll", "az", "num">>      \* lat1 lon1 lat2 lon2 / lat1 lon1 azi12 s12
+  CASE c.tool = "RhumbSolve" -> IF c.mode = "inv" THEN <<"ll", "ll">> ELSE IF c.mode = "line" THEN <<"num">> ELSE <<"ll", "az", "num">>   \* lat1 lon1 lat2 lon2 / s12 (-L lat1 lon1 azi12) / lat1 lon1 azi12 s12
     [] c.tool \in ProjTools -> IF c.mode = "rev" THEN <<"num", "num">> ELSE <<"ll">>                  \* x y / latitude longitude
     [] c.tool = "CartConvert" -> IF c.mode = "rev" THEN <<"num", "num", "num">> ELSE <<"ll", "num">>  \* x y z / latitude longitude height
     [] c.tool = "IntersectTool" ->
@@ -41,7 +41,7 @@ Fmt(c) ==
     [] c.tool = "Planimeter" -> <<"ll">>                                                              \* a vertex
 KnownCfg(c) ==
   /\ c.tool \in NewTools
-  /\ c.mode \in (CASE c.tool = "RhumbSolve" -> {"dir", "inv"} [] c.tool = "IntersectTool" -> {"c", "n", "i", "o"}
+  /\ c.mode \in (CASE c.tool = "RhumbSolve" -> {"dir", "inv", "line"} [] c.tool = "IntersectTool" -> {"c", "n", "i", "o"}
                    [] c.tool = "Planimeter" -> {"poly", "line"} [] OTHER -> {"fwd", "rev"})
   /\ c.prec >= 0 /\ c.prec <= 9 /\ c.cd \in {0, 35} /\ c.dms \in {0, 100, 58} /\ c.w \in BOOLEAN /\ c.rt \in BOOLEAN
 
@@ -50,10 +50,8 @@ RECURSIVE NTokF(_, _)
 NTokF(fmt, i) == IF i > Len(fmt) THEN 0 ELSE FWidth(fmt[i]) + NTokF(fmt, i + 1)
 NTok(c) == NTokF(Fmt(c), 1)
 
-\* --comment-delimiter: the part that is processed and the part that is appended to the output
-CPos(c, s) == IF c.cd = 0 THEN 0 ELSE FirstPos(s, LAMBDA x : x = c.cd)
-Body(c, s) == LET p == CPos(c, s) IN IF p = 0 THEN s ELSE SubSeq(s, 1, p - 1)
-Comment(c, s) == LET p == CPos(c, s) IN IF p = 0 THEN <<>> ELSE SubSeq(s, p, Len(s))
+\* --comment-delimiter: Body (the part that is processed), Comment (the part that is appended to the output) and
+\* OutBody are defined in LineText (GeoConvert and GeodSolve have the option too)
 
 Worst(a, b) == IF a = "bad" \/ b = "bad" THEN "bad" ELSE IF a = "any" \/ b = "any" THEN "any" ELSE "good"
 \* a latitude/longitude pair (GEOGRAPHIC COORDINATES of GeoConvert(1)); nan, inf: not mentioned by the man pages
@@ -140,13 +138,6 @@ OutFmt(c) ==
          ELSE << <<"fix", p>>, <<"fix", p>>, <<"int", -1, 1>> >>                                       \* x y c
 ItemsOK(c, ot, fmt) == Len(ot) = Len(fmt) /\ \A i \in 1..Len(fmt) : ItemOK(c, ot[i], fmt[i])
 
-\* the output line without the appended comment; <<FALSE>> when the comment is not there
-OutBody(c, s, out) ==
-  LET cm == Comment(c, s)  n == Len(out)  m == Len(cm) IN
-  IF m = 0 THEN <<TRUE, out>>
-  ELSE IF n >= m + 1 /\ SubSeq(out, n - m, n) = <<32>> \o cm THEN <<TRUE, SubSeq(out, 1, n - m - 1)>>
-  ELSE <<FALSE, <<>> >>
-
 IsZeroTok(t) == LET r == Val(t) IN r[1] = "num" /\ r[3] = 0
 SamePos(a, b) == a[1] = "ok" /\ b[1] = "ok" /\ a[2] = b[2] /\ Reduce180(a[3]) = Reduce180(b[3])
 SignedDeg(neg, D) == IF neg THEN -D ELSE D
@@ -157,6 +148,10 @@ ExactCase(c, tk, ot) ==
          LET a == DecodeLatLon(tk[1], tk[2], c.w)  ds == Val(tk[4])
              pe == c.prec + 5  dms == c.dms # 0 IN
          (ds[3] = 0 /\ a[2][3] < 89) => LLClose(a[2], Reduce180(a[3]), ot[1], ot[2], c.w, pe, dms)
+    [] c.tool = "RhumbSolve" /\ c.mode = "line" ->
+         \* -L lat1 lon1 azi12 (here the whole degrees c1, c2): the point at distance zero is the starting point
+         LET a == DecodeLatLon(DigitsOf(c.c1), DigitsOf(c.c2), FALSE)  ds == Val(tk[1]) IN
+         ds[3] = 0 => LLClose(a[2], Reduce180(a[3]), ot[1], ot[2], c.w, c.prec + 5, c.dms # 0)
     [] c.tool = "IntersectTool" /\ c.mode = "c" ->
          \* two different geodesics through one point: the closest intersection (|x| + |y| minimal) is that point
          LET a == DecodeLatLon(tk[1], tk[2], c.w)  b == DecodeLatLon(tk[4], tk[5], c.w)
